@@ -557,3 +557,701 @@ def _truth2(it, v):
 
 
 M.truth_hook = _truth2
+
+
+# =========================================================================================== equality of the property
+def _is_str(v):
+    return isinstance(v, str) or (z3.is_expr(v) and v.sort() == Str)
+
+
+def _is_num(v):
+    return isinstance(v, (bool, int, float)) or (z3.is_expr(v) and v.sort() in (z3.BoolSort(), z3.IntSort(), z3.RealSort(), xreal.XReal))
+
+
+def scalar_eq(a, b):
+    """Python == on scalars, except that NaN equals NaN (values are compared as values)."""
+    if _is_str(a) or _is_str(b):
+        if not (_is_str(a) and _is_str(b)):
+            return False
+        r = pm._lift(a, Str) == pm._lift(b, Str)
+        return z3.simplify(r) if not (isinstance(a, str) and isinstance(b, str)) else (a == b)
+    if _is_num(a) and _is_num(b):
+        if not z3.is_expr(a) and not z3.is_expr(b):
+            return (a == b) or (a != a and b != b)
+        return xreal.lift(a) == xreal.lift(b)
+    if z3.is_expr(a) and z3.is_expr(b) and a.sort() == b.sort():
+        return a == b
+    return False
+
+
+def odict_eq(a, b, excluded=()):
+    k = z3.Const('k!oe', a.kc.sort)
+    return z3.And(a.n == b.n,
+                  z3.ForAll([k], z3.And(a.dom[k] == b.dom[k], z3.Implies(a.dom[k], a.vc.eq(a.val[k], b.val[k], excluded)))))
+
+
+def spec_eq(it, a, b, excluded=()):
+    """`a == b` as the property means it: attrs-generated __eq__ (eq=False fields dropped), dict/list/tuple equality,
+    Python scalar equality across int/float/bool, NaN == NaN; (class name, field) pairs in `excluded` are skipped."""
+    if a is None or b is None:
+        return a is None and b is None
+    if isinstance(a, ODict) or isinstance(b, ODict):
+        if isinstance(a, M.PyDict):
+            a = as_odict(it, a, codecs=(b.kc, b.vc))
+        if isinstance(b, M.PyDict):
+            b = as_odict(it, b, codecs=(a.kc, a.vc))
+        if not (isinstance(a, ODict) and isinstance(b, ODict)):
+            return False
+        return odict_eq(a, b, excluded)
+    if isinstance(a, M.PyDict) and isinstance(b, M.PyDict):
+        if len(a) != len(b):
+            return False
+        conj = []
+        for k, v in a.items():
+            alts = []
+            for k2, v2 in b.items():
+                ck = spec_eq(it, k, k2, excluded)
+                if ck is False:
+                    continue
+                alts.append(E.zand(ck, spec_eq(it, v, v2, excluded)))
+            conj.append(E.zor(*alts))
+        return E.zand(*conj)
+    if isinstance(a, (list, tuple)) and isinstance(b, (list, tuple)):
+        if isinstance(a, tuple) != isinstance(b, tuple) or len(a) != len(b):
+            return False
+        return E.zand(*[spec_eq(it, x, y, excluded) for x, y in zip(a, b)])
+    if isinstance(a, SymList) or isinstance(b, SymList):
+        return symlist_eq(it, a, b, excluded)
+    if isinstance(a, Obj) and isinstance(b, Obj):
+        if getattr(a, 'enum_member', False) or getattr(b, 'enum_member', False):
+            return a is b
+        if not (isinstance(a.cls, ClassInfo) and isinstance(b.cls, ClassInfo) and E.same_class(a.cls, b.cls)):
+            return False
+        if is_userdict_class(a.cls):
+            return spec_eq(it, a.attrs['data'], b.attrs['data'], excluded)
+        spec = A.class_spec(a.cls)
+        if spec is None or not spec.eq:
+            c, m = E.find_method(a.cls, '__eq__')
+            if m is not None:
+                return it.truth_term(it.invoke(FuncVal(c.mod, m, c), [a, b], {}))
+            return a is b
+        conj = []
+        for name, f in field_clauses(it, a, b, excluded):
+            conj.append(f)
+        return E.zand(*conj)
+    if isinstance(a, Obj) or isinstance(b, Obj):
+        return False
+    if isinstance(a, Msg) and isinstance(b, Msg):
+        return a.pack() == b.pack()
+    return scalar_eq(a, b)
+
+
+def field_clauses(it, a, b, excluded=()):
+    """[(field name, formula)] of the attrs-generated __eq__ of a's class."""
+    spec = A.class_spec(a.cls)
+    out = []
+    for f in spec.fields:
+        nm = f.name.lstrip('_')
+        if f.eq is False or (a.cls.name, nm) in excluded:
+            continue
+        if f.name not in a.attrs or f.name not in b.attrs:
+            raise Unsupported('== on %s with unset field %s' % (a.cls.qualname, f.name))
+        x, y = a.attrs[f.name], b.attrs[f.name]
+        if f.eq is not True:
+            key = A._eval_in_class(it, f.owner, f.eq)
+            x, y = it.call(key, [x], {}), it.call(key, [y], {})
+        out.append((nm, E.zbool(spec_eq(it, x, y, excluded))))
+    return out
+
+
+def symlist_eq(it, a, b, excluded=()):
+    if isinstance(a, SymList) and isinstance(b, SymList):
+        j = z3.Int('j!se')
+        ea, eb = a.get(j), b.get(j)
+        if isinstance(ea, Msg):
+            c = ea.pack() == eb.pack()
+        else:
+            codec = getattr(a, 'codec', None)
+            c = codec.eq(a.arr[j], b.arr[j], excluded) if codec is not None else (a.arr[j] == b.arr[j])
+        return z3.And(a.n == b.n, z3.ForAll([j], z3.Implies(z3.And(j >= 0, j < a.n), c)))
+    sl, other = (a, b) if isinstance(a, SymList) else (b, a)
+    if isinstance(other, (list, tuple)):
+        return z3.And(sl.n == len(other), *[E.zbool(spec_eq(it, sl.get(z3.IntVal(i)), x, excluded)) for i, x in enumerate(other)])
+    return False
+
+
+# =========================================================================================== proto message equality, per field
+def term_eq_fields(schema, ta, tb, prefix=''):
+    """[(dotted field path, formula)]: field-wise equality of two packed messages of `schema` (proto equality:
+    scalar fields equal, presence equal, repeated fields same length and same elements)."""
+    reg = pm.registry()
+    if schema.fq in pm.OPAQUE_MESSAGES:
+        return [(prefix.rstrip('.') or 'value', ta == tb)]
+    layout = pm.msg_layout(schema)
+    acc = lambda zn, t: pm.accessor(schema, zn)(t)
+    out = []
+    done = set()
+    for zname, sort, role, f in layout:
+        if role == 'case':
+            out.append((prefix + f, acc(zname, ta) == acc(zname, tb)))
+            continue
+        if f.name in done:
+            continue
+        done.add(f.name)
+        path = prefix + f.name
+        if f.repeated:
+            j = z3.Int('j!mq_' + path.replace('.', '_'))
+            la, lb = acc(f.name + '__len', ta), acc(f.name + '__len', tb)
+            aa, ab = acc(f.name + '__arr', ta), acc(f.name + '__arr', tb)
+            if f.kind == 'message':
+                sub = reg.msgs[f.type_fq]
+                inner = z3.And(*[c for _, c in term_eq_fields(sub, aa[j], ab[j])])
+            else:
+                inner = aa[j] == ab[j]
+            out.append((path, z3.And(la == lb, z3.ForAll([j], z3.Implies(z3.And(j >= 0, j < la), inner)))))
+        elif f.kind == 'message':
+            sub = reg.msgs[f.type_fq]
+            inner = z3.And(*[c for _, c in term_eq_fields(sub, acc(f.name, ta), acc(f.name, tb))])
+            if f.oneof:
+                case = acc('case__' + f.oneof, ta) == f.number
+                out.append((path, z3.Implies(case, inner)))
+            else:
+                ha, hb = acc('has__' + f.name, ta), acc('has__' + f.name, tb)
+                out.append((path, z3.And(ha == hb, z3.Implies(ha, inner))))
+        else:
+            c = acc(f.name, ta) == acc(f.name, tb)
+            if f.oneof:
+                c = z3.Implies(acc('case__' + f.oneof, ta) == f.number, c)
+            elif f.optional:
+                ha, hb = acc('has__' + f.name, ta), acc('has__' + f.name, tb)
+                c = z3.And(ha == hb, z3.Implies(ha, c))
+            out.append((path, c))
+    return out
+
+
+def msg_eq_fields(a, b):
+    return term_eq_fields(a.schema, a.pack(), b.pack())
+
+
+def msg_frame(cur_msg, entry_msg, changed):
+    """every top-level field of the message except `changed` is as at loop entry."""
+    out = []
+    for path, c in msg_eq_fields(cur_msg, entry_msg):
+        if path.split('.')[0] in changed:
+            continue
+        out.append(c)
+    return z3.And(*out) if out else z3.BoolVal(True)
+
+
+# =========================================================================================== numpy scalars used by the records
+def _np_isfinite(it, args, kw):
+    v = args[0]
+    if z3.is_expr(v):
+        if v.sort() == xreal.XReal:
+            return xreal.is_fin(v)
+        if v.sort() in (z3.IntSort(), z3.BoolSort(), z3.RealSort()):
+            return True
+        raise Unsupported('np.isfinite(%s)' % v.sort())
+    import math
+    return math.isfinite(v)
+
+
+for _pkg in ('numpy', 'np'):
+    E.EXTERNAL.setdefault(_pkg + '.isfinite', Builtin('np.isfinite', _np_isfinite))
+    E.EXTERNAL.setdefault(_pkg + '.inf', float('inf'))
+    E.EXTERNAL.setdefault(_pkg + '.nan', float('nan'))
+
+
+# =========================================================================================== abstract records, codec lists
+class Abstract:
+    """a python object known only as a term of an uninterpreted (or record) sort: attribute access is unsupported;
+    the converters of such objects are used through their contracts (modular verification)."""
+
+    def __init__(self, name, sort, cls_fn=None, eq_fn=None):
+        self.name, self.sort, self.cls_fn, self.eq_fn = name, sort, cls_fn, eq_fn
+
+    def term(self, o):
+        t = getattr(o, 'term', None)
+        if not z3.is_expr(t):
+            raise Unsupported('%r stored where an abstract %s is expected' % (o, self.name))
+        return t
+
+    def wrap(self, t):
+        o = Obj(self.cls_fn() if self.cls_fn else self.name, {})
+        o.term, o.abstract = t, True
+        return o
+
+    def eq(self, a, b, excluded=()):
+        return self.eq_fn(a, b) if self.eq_fn else a == b
+
+
+def abstract_obj(codec, term):
+    return codec.wrap(term)
+
+
+class CodecList(SymList):
+    """array-list of python objects stored through a codec."""
+
+    def __init__(self, n, arr, codec):
+        SymList.__init__(self, n, arr, 'codec')
+        self.codec = codec
+
+    @classmethod
+    def empty(cls, codec):
+        return cls(z3.IntVal(0), z3.K(z3.IntSort(), _default_of(codec.sort)), codec)
+
+    @classmethod
+    def fresh(cls, run, name, codec):
+        lst = cls(run.fresh(name + '_n', z3.IntSort()), run.fresh(name + '_a', z3.ArraySort(z3.IntSort(), codec.sort)), codec)
+        run.assume(lst.n >= 0)
+        return lst
+
+    def elem_sort(self):
+        return self.codec.sort
+
+    def wrap(self, term):
+        return self.codec.wrap(term)
+
+
+_orig_elem_term = M.elem_term
+
+
+def _elem_term(lst, v):
+    if isinstance(lst, CodecList):
+        return lst.codec.term(v)
+    return _orig_elem_term(lst, v)
+
+
+M.elem_term = _elem_term
+
+_orig_snapshot = M.snapshot
+
+
+def _snapshot(v):
+    if isinstance(v, CodecList):
+        return CodecList(v.n, v.arr, v.codec)
+    if isinstance(v, ODict):
+        return v.copy()
+    return _orig_snapshot(v)
+
+
+M.snapshot = _snapshot
+
+
+def _isinstance(it, o, c):
+    if isinstance(o, ODict):
+        return c == 'dict'
+    if isinstance(o, DT):
+        return (isinstance(c, E.ExtRef) and c.dotted == 'datetime.datetime') or c == 'object'
+    return M.MISSING
+
+
+# =========================================================================================== Mapping mixin over an ODict
+def _b_iter(it, args, kw, _prev=M.BUILTINS['iter'].fn):
+    if args and isinstance(args[0], ODict):
+        return PairList(args[0], 'keys')
+    return _prev(it, args, kw)
+
+
+M.BUILTINS['iter'] = Builtin('iter', _b_iter)
+
+
+def _abs_copy(od):
+    c = od.copy()
+    c.vc = Abstract('value', od.vc.sort, getattr(od.vc, 'cls_fn', None))
+    return c
+
+
+def _sym_mapping_getattr(it, o, a):
+    """items()/keys()/values() of a repo Mapping class whose __iter__ iterates a dict of symbolic size: the mixin
+    yields (k, self[k]) for k in iter(self); `self[k]` is executed once on an arbitrary key (pointwise obligation)."""
+    if a not in ('items', 'keys', 'values') or not isinstance(o, Obj) or not isinstance(o.cls, ClassInfo):
+        return M.MISSING
+    if is_userdict_class(o.cls) or not A._is_mapping_class(o.cls):
+        return M.MISSING
+    srcs = [(n, v) for n, v in o.attrs.items() if isinstance(v, ODict)]
+    if len(srcs) != 1:
+        return M.MISSING
+    fname, od = srcs[0]
+    ks = it.call(A._dunder(it, o, '__iter__'), [], {})
+    if not (isinstance(ks, PairList) and ks.what == 'keys'):
+        return M.MISSING
+    if a != 'keys':
+        run = it.run
+        k = run.fresh('mp_k', od.kc.sort)
+        run.assume(od.dom[k])
+        probe = Obj(o.cls, dict(o.attrs))
+        probe.attrs[fname] = _abs_copy(od)
+        r = it.call(A._dunder(it, probe, '__getitem__'), [od.kc.wrap(k)], {})
+        run.oblige('Mapping.items.pointwise', z3.BoolVal(False) if not z3.is_expr(getattr(r, 'term', None)) else r.term == od.val[k])
+    return Builtin(a, lambda it_, args, kw: PairList(ks.od, a))
+
+
+_chain('obj_getattr', _sym_mapping_getattr)
+
+
+def _sym_map_update(it, o, a):
+    """MutableMapping.update(other) with `other` a dict of symbolic size: self[k] = other[k] for k in other, executed
+    once on an arbitrary entry into an empty scratch instance (pointwise obligation); only for an empty receiver."""
+    if a != 'update' or not isinstance(o, Obj) or not isinstance(o.cls, ClassInfo) or is_userdict_class(o.cls):
+        return M.MISSING
+    if not A._is_mapping_class(o.cls):
+        return M.MISSING
+    prev_update = None
+
+    def update(it_, args, kw):
+        if not (args and isinstance(args[0], ODict)):
+            return it_.call(_prev_obj_getattr_update(it_, o), list(args), kw)
+        src = args[0]
+        if kw:
+            raise Unsupported('update(d, **kw) with d of symbolic size')
+        tgt = [(n, v) for n, v in o.attrs.items() if isinstance(v, (M.PyDict, ODict))]
+        if len(tgt) != 1 or (isinstance(tgt[0][1], M.PyDict) and len(tgt[0][1])) or (isinstance(tgt[0][1], ODict) and not z3.is_int_value(z3.simplify(tgt[0][1].n))):
+            raise Unsupported('update() of a non-empty mapping from a dict of symbolic size')
+        fname = tgt[0][0]
+        run = it_.run
+        k = run.fresh('up_k', src.kc.sort)
+        absc = Abstract('value', src.vc.sort, getattr(src.vc, 'cls_fn', None))
+        scratch = Obj(o.cls, dict(o.attrs))
+        scratch.attrs[fname] = ODict(src.kc, absc)
+        it_.call(A._dunder(it_, scratch, '__setitem__'), [src.kc.wrap(k), absc.wrap(src.val[k])], {})
+        sd = scratch.attrs[fname]
+        run.oblige('Mapping.update.pointwise', z3.And(sd.n == 1, sd.dom[k], sd.val[k] == src.val[k], sd.karr[0] == k))
+        o.attrs[fname] = src.copy()
+        return None
+    return Builtin('MutableMapping.update', update)
+
+
+_prev_obj_getattr_for_update = M.obj_getattr
+
+
+def _prev_obj_getattr_update(it, o):
+    r = _prev_obj_getattr_for_update(it, o, 'update')
+    if r is M.MISSING:
+        raise Unsupported('update() of %r' % (o,))
+    return r
+
+
+_chain('obj_getattr', _sym_map_update)
+
+
+# =========================================================================================== datetime (aware instants)
+class DT:
+    """an aware datetime.datetime, determined by its instant `ts` (POSIX seconds, a z3 Real).  datetime objects have
+    microsecond resolution: `ts * 10^6` is an integer (assumed for inputs, established by fromtimestamp's rounding)."""
+
+    def __init__(self, ts):
+        self.ts = ts
+
+    def __repr__(self):
+        return '<datetime ts=%s>' % (self.ts,)
+
+
+MICRO = z3.RealVal(1000000)
+
+
+def round_us(t):
+    """nearest multiple of 1e-6 (datetime.fromtimestamp rounds to the nearest microsecond; ties are not modelled apart)."""
+    return z3.ToReal(z3.ToInt(t * MICRO + z3.RealVal('1/2'))) / MICRO
+
+
+def fresh_dt(run, name):
+    t = run.fresh(name, z3.RealSort())
+    run.assume(z3.IsInt(t * MICRO))
+    return DT(t)
+
+
+def _dt_timestamp(it, args, kw):
+    d = args[0]
+    if not isinstance(d, DT):
+        raise Unsupported('datetime.timestamp(%r)' % (d,))
+    return xreal.fin(d.ts)
+
+
+def _dt_fromtimestamp(it, args, kw):
+    t = args[0]
+    if len(args) > 1 or kw:
+        raise Unsupported('datetime.fromtimestamp with a tz argument')
+    if isinstance(t, (int, float)):
+        t = xreal.lit(t)
+    elif z3.is_expr(t) and t.sort() == z3.IntSort():
+        t = xreal.from_num(t)
+    if not xreal.is_x(t):
+        raise Unsupported('datetime.fromtimestamp(%r)' % (t,))
+    if not it.truth(xreal.is_fin(t)):
+        raise PyRaise(it.make_exc('ValueError', ['cannot convert float NaN/inf to a timestamp']))
+    return DT(round_us(xreal.r(t)))
+
+
+E.EXTERNAL['datetime.datetime.timestamp'] = Builtin('datetime.timestamp', _dt_timestamp)
+E.EXTERNAL['datetime.datetime.fromtimestamp'] = Builtin('datetime.fromtimestamp', _dt_fromtimestamp)
+
+
+def _dt_getattr(it, v, a):
+    if isinstance(v, DT):
+        if a == 'astimezone':
+            return Builtin('astimezone', lambda it_, args, kw: v)       # same instant
+        if a == 'timestamp':
+            return Builtin('timestamp', lambda it_, args, kw: xreal.fin(v.ts))
+        raise Unsupported('datetime attribute %s' % a)
+    return M.MISSING
+
+
+_chain('value_getattr_hook', _dt_getattr)
+_chain('isinstance_hook', _isinstance)
+
+_prev_truth3 = M.truth_hook
+
+
+def _truth3(it, v):
+    if isinstance(v, DT):
+        return True
+    return _prev_truth3(it, v)
+
+
+M.truth_hook = _truth3
+
+
+def dt_close(a, b):
+    """|a - b| < 1e-6 ("times are preserved to the microsecond")"""
+    d = a.ts - b.ts
+    return z3.And(d < z3.RealVal('1/1000000'), -d < z3.RealVal('1/1000000'))
+
+
+_prev_spec_eq = spec_eq
+
+
+def spec_eq(it, a, b, excluded=()):     # noqa: F811  (datetimes: same instant)
+    if isinstance(a, DT) or isinstance(b, DT):
+        if isinstance(a, DT) and isinstance(b, DT):
+            return a.ts == b.ts
+        return False
+    return _prev_spec_eq(it, a, b, excluded)
+
+
+# =========================================================================================== generic elements (case splits)
+# codec.generic(prefix) -> [(guard(t) -> z3 Bool, generic term, subst(t) -> [(generic const, actual term)])]
+# the cases partition the sort; inside one case wrapping the generic term never branches.
+_GEN = [0]
+
+
+def _gconst(prefix, sort):
+    _GEN[0] += 1
+    return z3.Const('g!%s!%d' % (prefix, _GEN[0]), sort)
+
+
+def _scalar_generic(self, prefix):
+    g = _gconst(prefix, self.sort)
+    return [(lambda t: z3.BoolVal(True), g, lambda t: [(g, t)])]
+
+
+Scalar.generic = _scalar_generic
+Abstract.generic = _scalar_generic
+
+
+def _tagged_generic(self, prefix):
+    P = PVal
+    gb, gi, gx, gs = _gconst(prefix + 'b', z3.BoolSort()), _gconst(prefix + 'i', z3.IntSort()), _gconst(prefix + 'x', xreal.XReal), _gconst(prefix + 's', Str)
+    return [(lambda t: P.is_B(t), P.B(gb), lambda t: [(gb, P.b(t))]),
+            (lambda t: P.is_I(t), P.I(gi), lambda t: [(gi, P.i(t))]),
+            (lambda t: P.is_F(t), P.F(gx), lambda t: [(gx, P.x(t))]),
+            (lambda t: P.is_S(t), P.S(gs), lambda t: [(gs, P.s(t))])]
+
+
+Tagged.generic = _tagged_generic
+
+
+def _opt_generic(self, prefix):
+    s = self.sort
+    out = [(lambda t: s.is_none(t), s.none, lambda t: [])]
+    for guard, gen, subst in self.inner.generic(prefix):
+        out.append((lambda t, guard=guard: z3.And(s.is_some(t), guard(s.v(t))), s.some(gen), lambda t, subst=subst: subst(s.v(t))))
+    return out
+
+
+Opt.generic = _opt_generic
+
+
+def _rec_generic(self, prefix):
+    cases = [(lambda t: z3.BoolVal(True), [], lambda t: [])]
+    for a, c in self.fields:
+        nxt = []
+        for guard0, gens0, subst0 in cases:
+            for guard, gen, subst in c.generic(prefix + a.lstrip('_')[:3]):
+                nxt.append((lambda t, g0=guard0, g1=guard, a=a: z3.And(g0(t), g1(self.acc[a](t))), gens0 + [gen],
+                            lambda t, s0=subst0, s1=subst, a=a: s0(t) + s1(self.acc[a](t))))
+        cases = nxt
+    return [(g, self.sort.mk(*gens), s) for g, gens, s in cases]
+
+
+Rec.generic = _rec_generic
+
+
+class MsgCodec:
+    """proto message elements of a repeated field."""
+
+    def __init__(self, schema):
+        self.schema = schema
+        self.sort = pm.msg_sort(schema)
+
+    def term(self, v):
+        return v.pack()
+
+    def wrap(self, t):
+        return Msg.from_term(self.schema, t)
+
+    def eq(self, a, b, excluded=()):
+        return a == b
+
+    generic = _scalar_generic
+
+
+def elem_codec(lst):
+    if isinstance(lst, CodecList):
+        return lst.codec
+    if isinstance(lst.elem, MsgSchema):
+        return MsgCodec(lst.elem)
+    return Scalar(lst.elem)
+
+
+def substitute_ite(cases, term_of_case, actual):
+    """If(guard_1(actual), T_1[g := actual], If(guard_2, ...)) -- the last case is the default."""
+    out = None
+    for (guard, gen, subst), t in reversed(list(zip(cases, term_of_case))):
+        tt = z3.substitute(t, *subst(actual)) if subst(actual) else t
+        out = tt if out is None else z3.If(guard(actual), tt, out)
+    return out
+
+
+# =========================================================================================== map loops: contract by summarisation
+import ast as _ast
+
+
+def loops_of(fn_node):
+    loops = [n for n in _ast.walk(fn_node) if isinstance(n, (_ast.For, _ast.While))]
+    loops.sort(key=lambda n: (n.lineno, n.col_offset))
+    return loops
+
+
+class SourceView:
+    """uniform access to the element terms of the iterated collection."""
+
+    def __init__(self, src):
+        self.src = src
+        if isinstance(src, PairList):
+            od = src.od
+            self.parts = {'items': [(od.kc, lambda j: od.karr[j]), (od.vc, lambda j: od.val[od.karr[j]])],
+                          'keys': [(od.kc, lambda j: od.karr[j])],
+                          'values': [(od.vc, lambda j: od.val[od.karr[j]])]}[src.what]
+            self.tuple = src.what == 'items'
+        elif isinstance(src, SymList) and src.arr is not None:
+            c = elem_codec(src)
+            self.parts = [(c, lambda j: src.arr[j])]
+            self.tuple = False
+        else:
+            raise Unsupported('map-loop contract over %r' % (src,))
+
+    def cases(self, prefix):
+        """cartesian product of the parts' generic cases: [(guard(j), python target value, subst(j))]"""
+        out = [(lambda j: z3.BoolVal(True), [], lambda j: [])]
+        for pi, (codec, at) in enumerate(self.parts):
+            nxt = []
+            for g0, gens0, s0 in out:
+                for guard, gen, subst in codec.generic('%s%d' % (prefix, pi)):
+                    nxt.append((lambda j, g0=g0, guard=guard, at=at: z3.And(g0(j), guard(at(j))), gens0 + [(codec, gen)],
+                                lambda j, s0=s0, subst=subst, at=at: s0(j) + subst(at(j))))
+            out = nxt
+        return out
+
+    def target_value(self, gens):
+        vals = [codec.wrap(gen) for codec, gen in gens]
+        return tuple(vals) if self.tuple else vals[0]
+
+
+class AutoMap:
+    """Loop contract of `for t in src: <out>.append(f(t))` (also `.add(...)`): the body is executed once per *generic*
+    element case on a scratch output; the appended term T(g) is the summary, and the invariant is
+
+        len(out) == len(out@entry) + i,  out[len(out@entry) + j] == T(src[j]) for j < i,  prefix and frame unchanged.
+
+    The summary is derived from the real body on every run and every clause is a checked obligation (init/preserve), so
+    nothing about the body is assumed."""
+
+    def __init__(self, mod, qual, node, ordinal, out, msg=None, field=None, local_codec=None):
+        self.mod, self.qual, self.node, self.ordinal = mod, qual, node, ordinal
+        self.out, self.msg, self.field, self.local_codec = out, msg, field, local_codec
+
+    def install(self):
+        E.LOOPS[(self.mod, self.qual, self.ordinal)] = E.LoopSpec(self.invariant)
+
+    def _out(self, env):
+        if self.msg is not None:
+            return env[self.msg].get(self.field)
+        return env[self.out]
+
+    def summarise(self, it, fr, ctx):
+        view = SourceView(ctx.iter)
+        cases = view.cases('e')
+        terms = []
+        for guard, gens, subst in cases:
+            env2 = dict(fr.env)
+            if self.msg is not None:
+                env2[self.msg] = Msg.default(fr.env[self.msg].schema)
+            else:
+                cur_out = fr.env[self.out]
+                env2[self.out] = CodecList.empty(cur_out.codec) if isinstance(cur_out, CodecList) else \
+                    SymList(z3.IntVal(0), z3.K(z3.IntSort(), _default_of(cur_out.elem_sort())), cur_out.elem)
+            fr2 = E.Frame(fr.mod, env2, func=fr.func, parent=fr.parent)
+            it.assign(fr2, self.node.target, view.target_value(gens))
+            try:
+                it.block(fr2, self.node.body)
+            except (E.PyContinue,):
+                pass
+            except (E.PyBreak, E.PyReturn, PyRaise) as e:
+                raise Unsupported('%s loop %d is not a plain map loop (%s in the body)' % (self.qual, self.ordinal, type(e).__name__))
+            o = self._out(env2)
+            n = z3.simplify(o.n) if z3.is_expr(o.n) else z3.IntVal(o.n)
+            if not (z3.is_int_value(n) and n.as_long() == 1):
+                raise Unsupported('%s loop %d does not append exactly one element per iteration' % (self.qual, self.ordinal))
+            terms.append(z3.simplify(z3.Select(o.arr, 0)))
+        return view, cases, terms
+
+    def invariant(self, it, fr, ctx):
+        if ctx.phase == 'init':
+            if self.msg is None and isinstance(fr.env[self.out], list):
+                if fr.env[self.out]:
+                    raise Unsupported('output list of %s loop %d is not empty at loop entry' % (self.qual, self.ordinal))
+                fr.env[self.out] = CodecList.empty(self.local_codec)
+                ctx.entry_vals[self.out] = CodecList.empty(self.local_codec)
+            ctx.summary = self.summarise(it, fr, ctx)
+        view, cases, terms = ctx.summary
+        out, out0 = self._out(fr.env), self._out(ctx.entry_vals)
+        i = ctx.i
+        j = z3.Int('j!am')
+
+        def F(jj):
+            res = None
+            for (guard, gens, subst), t in reversed(list(zip(cases, terms))):
+                sub = subst(jj)
+                tt = z3.substitute(t, *sub) if sub else t
+                res = tt if res is None else z3.If(guard(jj), tt, res)
+            return res
+        ctx.F = F
+        cl = []
+        if self.msg is not None:
+            cl.append(('frame', msg_frame(fr.env[self.msg], ctx.entry_vals[self.msg], {self.field})))
+        cl += [
+            ('len', out.n == out0.n + i),
+            ('prefix', z3.ForAll([j], z3.Implies(z3.And(j >= 0, j < out0.n), out.arr[j] == out0.arr[j]))),
+            ('elems', z3.ForAll([j], z3.Implies(z3.And(j >= 0, j < i), out.arr[out0.n + j] == F(j)))),
+        ]
+        return cl
+
+
+def frame_only(msg, changed):
+    """loop contract stating only that every field of message variable `msg` outside `changed` keeps its entry value"""
+    def inv(it, fr, ctx):
+        if msg is None:
+            return []
+        return [('frame', msg_frame(fr.env[msg], ctx.entry_vals[msg], set(changed)))]
+    return E.LoopSpec(inv)
